@@ -497,7 +497,9 @@ func (c *Client) HandshakingState(e *am.Event) {
 			}
 		}
 		if !ok {
-			c.Mach.EvAdd1(e, ssC.RetryingConn, nil)
+			// Connected blocks RetryingConn, so drop the connection instead, which
+			// ends in Disconnected and a reconnect
+			_ = c.rpc.Load().Close()
 			return
 		}
 
@@ -526,7 +528,8 @@ func (c *Client) HandshakingState(e *am.Event) {
 
 		// confirm the handshake or retry conn
 		if !c.call(ctx, ServerHandshake.Value, &MsgEmpty{}, &MsgEmpty{}, 0) {
-			c.Mach.EvAdd1(e, ssC.RetryingConn, nil)
+			// as above
+			_ = c.rpc.Load().Close()
 			return
 		}
 
